@@ -2534,7 +2534,10 @@ static cat_status unsolicited_events_service(struct cat_object *self)
 
         switch (self->unsolicited_fsm.state) {
         case CAT_UNSOLICITED_STATE_IDLE:
-                check_unsolicited_buffers(self);
+                if (is_unsolicited_buffer_empty(self) == false) {
+                        check_unsolicited_buffers(self);
+                        s = CAT_STATUS_BUSY;
+                }
                 break;
         case CAT_UNSOLICITED_STATE_FORMAT_READ_ARGS:
                 s = format_read_args(self, CAT_FSM_TYPE_UNSOLICITED);
